@@ -1007,7 +1007,10 @@ fn check_tree(tree: &Tree, a: &Produced, case: &Case<'_>, base: &Path, host_leve
             }
             // What the repair left on disk is again a prefix (harness parser).
             let after = std::fs::read(dir.join(disk::SEGMENT_REL)).unwrap_or_default();
-            let (commits, parsed) = disk::commits_in(&after);
+            let (mut commits, parsed) = disk::commits_in(&after);
+            // Every reader orders records by LSN, so the physical order of whole records in the file
+            // is not part of the recovered history: compare in LSN order.
+            commits.sort_by_key(|c| c.first_lsn);
             let got: Vec<disk::H> = commits.iter().map(|c| c.digest).collect();
             let stashed = case.store_level.borrow().is_some();
             if !stashed && (got.len() != n || !got.iter().zip(&case.orig).all(|(x, y)| x == y) || !matches!(parsed.tail, disk::Tail::Clean)) {
